@@ -131,6 +131,7 @@ def run(ctx):
     layer_metal(ctx, 40 if ctx.quick else 600)
     layer_start_tag_options(ctx, 40 if ctx.quick else 800)
     layer_repeated_failures(ctx, 25 if ctx.quick else 400)
+    layer_globals_in_abandoned_elements(ctx, 25 if ctx.quick else 400)
 
 
 def layer_error_variable(ctx, n):
@@ -288,6 +289,38 @@ def layer_repeated_failures(ctx, n):
             ctx.violation('handler-calls-differ' if out == want else 'output-differs',
                           'template %r, failures raise %s: rendered %r, handler called %d time(s); expected %r and %d calls' % (
                               src, kind, out, len(calls), want, ncalls), {'kind': 'errvar', 'src': src})
+
+
+
+def layer_globals_in_abandoned_elements(ctx, n):
+    """Global definitions made inside an element that is later abandoned (tal:on-error takes over) persist with the
+    value they were given there - also when the name was a global (or a local of an enclosing element) before - and a
+    name that was never bound stays unbound; the output outside the element is otherwise untouched."""
+    from chameleon import PageTemplate
+    rng = ctx.rng
+    for case in range(n):
+        before = rng.choice(['', '<i tal:define="global g \'G0\'"/>', '<i tal:define="global g \'G0\'; global h \'H0\'"/>'])
+        how = rng.choice(['define', 'macro'])
+        if how == 'define':
+            inner = '<b tal:define="global g \'G1\'"/>'
+        else:
+            inner = '<u metal:use-macro="template.macros[\'setg\']"/>'
+        fails = rng.random() < .7
+        body = inner + '${g}' + ('${1/0}' if fails else '')
+        wrap = rng.choice(['<div tal:on-error="string:E">%s</div>', '<div tal:define="q 1" tal:on-error="string:E"><s>%s</s></div>'])
+        src = ('<tal:c condition="False"><m metal:define-macro="setg"><b tal:define="global g \'G1\'"/></m></tal:c>'
+               '<r>%s%s[${g|\'U\'}|${h|\'U\'}]<m2 metal:define-macro="show">(${g|\'U\'})</m2></r>' % (before, wrap % body))
+        h = 'H0' if 'global h' in before else 'U'
+        mid = '<div>E</div>' if fails else (wrap % ('<b/>G1' if how == 'define' else '<m><b/></m>G1')).replace(' tal:on-error="string:E"', '').replace(' tal:define="q 1"', '')
+        want = '<r>%s%s[G1|%s]<m2>(G1)</m2></r>' % ('<i/>' if before else '', mid, h)      # (the element's own locals: the recorded open finding, not probed here)
+        try:
+            got = PageTemplate(src)()
+        except Exception as e:
+            got = 'RAISED %s: %s' % (type(e).__name__, str(e).split('\n')[0][:80])
+        ctx.mon('globals-in-abandoned-elements-compared')
+        ctx.case(key=('abandoned-globals', bool(before), 'global h' in before, how, fails, wrap[:24]), nontrivial=fails)
+        if got != want:
+            ctx.violation('global-defined-inside-an-abandoned-element', 'template %r rendered %r, expected %r' % (src, got, want), {'kind': 'errvar', 'src': src})
 
 
 def layer_metal(ctx, n):
